@@ -142,7 +142,13 @@ def generate(run, tier):
 
 # --------------------------------------------------------------------------- Coq terms
 
+def _plain(s):
+    return all(32 <= ord(ch) < 127 and ch != '"' for ch in s)
+
+
 def _gname(pair):
+    if _plain(pair[0]) and _plain(pair[1]):
+        return '(gn "%s"%%string "%s"%%string)' % (pair[0], pair[1])
     return "(%s, %s)" % (C.cstr_codes(pair[0]), C.cstr_codes(pair[1]))
 
 
